@@ -4,6 +4,7 @@
 -/
 import DDV.Extracted.Tables
 import DDV.Gen.Pipeline
+import DDV.Gen.Shell
 
 namespace DDV.Props.C20
 open DDV.Gen
@@ -12,5 +13,61 @@ open DDV.Gen
     from the source on every run, is empty): hash containers are used for membership and keyed
     lookup only, so no output can depend on a hash seed. -/
 theorem no_hash_iteration_sites : DDV.Extracted.hashIterationSites = [] := by decide
+
+
+open DDV.Shell
+
+/-- **CLI output.** Whenever the CLI gets as far as calling the library, it writes exactly the
+    pretty-printed library output for (parser chosen by the extension, file contents, device name)
+    to the chosen file, or to stdout when none is given. -/
+theorem cli_output_is_pretty_lib_output (w : World) (path e : String) (out : Option String) (device contents : String)
+    (x : Ext) (hr : w.readFile path = some contents) (hx : parseExt e = some x) :
+    (cli w path (some e) out device).written =
+      some ((match out with | some p => Sink.file p | none => Sink.stdout), w.pretty (w.lib x contents device)) := by
+  simp [cli, hr, hx]
+  cases out <;> rfl
+
+/-- **CLI exit status.** Given that the pretty-printer renders exactly the library's
+    `compile_error!` outputs with the `::core::compile_error!` prefix (validated by the
+    correspondence run on accepted and rejected inputs), the CLI exits non-zero exactly when the
+    library reports an error. -/
+theorem cli_nonzero_iff_lib_error (w : World) (path e : String) (out : Option String) (device contents : String)
+    (x : Ext) (hr : w.readFile path = some contents) (hx : parseExt e = some x)
+    (hpretty : ∀ o, looksLikeError w o = true ↔ ∃ msg, o = .compileError msg) :
+    (cli w path (some e) out device).exitCode ≠ 0 ↔ ∃ msg, w.lib x contents device = .compileError msg := by
+  simp only [cli, hr, hx]
+  rw [← hpretty]
+  cases looksLikeError w (w.lib x contents device) <;> simp
+
+/-- Every way the CLI can stop before calling the library (no extension, unreadable file, unknown
+    extension) is a non-zero exit with nothing written. -/
+theorem cli_early_failure_is_nonzero (w : World) (path : String) (ext out : Option String) (device : String)
+    (h : (cli w path ext out device).written = none) : (cli w path ext out device).exitCode = 101 := by
+  unfold cli at h ⊢
+  cases ext with
+  | none => rfl
+  | some e =>
+    simp only at h ⊢
+    cases hr : w.readFile path with
+    | none => rfl
+    | some c =>
+      simp only [hr] at h ⊢
+      cases hx : parseExt e with
+      | none => rfl
+      | some x => simp [hx] at h
+
+/-- **Macro.** Inline DSL expands to the library output for those tokens; a manifest path is
+    resolved against the crate root when relative, the parser is chosen by the file extension,
+    and the expansion is the library output for the file's contents — the same `LibOutput` the
+    library (and hence the CLI) produces for that input. -/
+theorem macro_expansion_eq_lib_output (w : World) (device path e contents : String) (x : Ext)
+    (hr : w.readFile (resolvePath w path) = some contents) (hx : parseExt e = some x) :
+    createDevice w device (.manifest path (some e)) = .expansion (w.lib x contents device) ∧
+    (∀ tokens, createDevice w device (.dsl tokens) = .expansion (w.lib .dsl tokens device)) := by
+  simp [createDevice, hr, hx]
+
+theorem extension_selects_parser :
+    parseExt "dsl" = some .dsl ∧ parseExt "json" = some .json ∧ parseExt "yaml" = some .yaml ∧
+    parseExt "toml" = some .toml ∧ parseExt "txt" = none := by decide
 
 end DDV.Props.C20
